@@ -32,17 +32,21 @@ class Rec(contextlib.AbstractContextManager):
 
     def __enter__(self):
         import scipy.fftpack as fp
+        import scipy.fft as sfft
         import matplotlib.mlab as mlab
         import nitime.utils as ut
-        self._fp, self._mlab, self._ut = fp, mlab, ut
+        self._fp, self._mlab, self._ut, self._sfft = fp, mlab, ut, sfft
         self._o_fft, self._o_dpss, self._o_ad, self._o_csd = fp.fft, ut.dpss_windows, ut.adaptive_weights, mlab.csd
+        self._o_npfft, self._o_sfft = np.fft.fft, sfft.fft
         rec = self
 
-        def fft(x, n=None, axis=-1, *a, **k):
-            out = rec._o_fft(x, n, axis, *a, **k)
-            if not rec._in_dpss:
-                rec.fft.append((np.array(x), n, axis, np.array(out)))
-            return out
+        def mk_fft(orig):
+            def fft(x, n=None, axis=-1, *a, **k):
+                out = orig(x, n, axis, *a, **k)
+                if not rec._in_dpss:
+                    rec.fft.append((np.array(x), n, axis, np.array(out)))
+                return out
+            return fft
 
         def dpss_windows(*a, **k):
             rec._in_dpss += 1
@@ -72,16 +76,22 @@ class Rec(contextlib.AbstractContextManager):
             return out
 
         def csd(*a, **k):
-            out = rec._o_csd(*a, **k)
+            rec._in_dpss += 1           # the FFTs matplotlib makes inside mlab.csd are not nitime's
+            try:
+                out = rec._o_csd(*a, **k)
+            finally:
+                rec._in_dpss -= 1
             rec.csd.append((a, k, (np.array(out[0]), np.array(out[1]))))
             return out
 
-        fp.fft, ut.dpss_windows, ut.adaptive_weights, mlab.csd = fft, dpss_windows, adaptive_weights, csd
+        # whichever FFT entry point the code calls (scipy.fftpack today) is recorded
+        fp.fft, np.fft.fft, sfft.fft = mk_fft(self._o_fft), mk_fft(self._o_npfft), mk_fft(self._o_sfft)
+        ut.dpss_windows, ut.adaptive_weights, mlab.csd = dpss_windows, adaptive_weights, csd
         return self
 
     def __exit__(self, *exc):
-        self._fp.fft, self._ut.dpss_windows, self._ut.adaptive_weights, self._mlab.csd = (
-            self._o_fft, self._o_dpss, self._o_ad, self._o_csd)
+        self._fp.fft, np.fft.fft, self._sfft.fft = self._o_fft, self._o_npfft, self._o_sfft
+        self._ut.dpss_windows, self._ut.adaptive_weights, self._mlab.csd = self._o_dpss, self._o_ad, self._o_csd
         return False
 
 
@@ -667,6 +677,10 @@ def run_k(ctx, cases, budget=18.0):
                 bad.add(id(job[5][j]))
     for c in cases:
         ctx.count_case(c)
+    lost = [c for c in cases if not c.in_k and c.res["err"] is None]
+    ctx.obligation("K", "emit: every successful call is expressible as a K case (%d are not)" % len(lost), not lost,
+                   "calls whose library-oracle recording does not have the expected form (no fft / dpss_windows / "
+                   "mlab.csd call of the expected shape was seen): " + "; ".join(c.klass for c in lost[:10]))
     return bad
 
 
